@@ -29,6 +29,12 @@ Scratch(p) == ScratchOf[p]
 \* locations the B program of a pair touches
 Touched == [p \in 1..Len(Pairs) |-> { Pairs[p].B[i][2] : i \in 1..Len(Pairs[p].B) }]
 
+\* a foreign read is TORN when it sees an update of A half-way: B reads a location A will write again in this
+\* call, or A reads back a location it wrote earlier in this call and B has overwritten since
+Torn(p, reader, loc, pcA) == LET PA == Pairs[p].A IN
+    IF reader = "B" THEN \E i \in pcA..Len(PA) : PA[i][1] = "W" /\ PA[i][2] = loc
+    ELSE \E i \in 1..(pcA - 1) : PA[i][1] = "W" /\ PA[i][2] = loc
+
 VARIABLES pair, pc, owner, switches, last
 vars == <<pair, pc, owner, switches, last>>
 Init == /\ pair \in 1..Len(Pairs)
@@ -42,7 +48,7 @@ Step(t) ==
          scr == e[2] \in Scratch(pair)
          own == IF e[2] \in DOMAIN owner THEN owner[e[2]] ELSE "none" IN
      /\ (IF e[1] = "R" /\ scr /\ own # t /\ own # "none"
-         THEN PrintT(<<"FOREIGN", pair, t, pc[t], e[2], pc[IF t = "A" THEN "B" ELSE "A"]>>) ELSE TRUE)
+         THEN PrintT(<<"FOREIGN", pair, t, pc[t], e[2], pc[IF t = "A" THEN "B" ELSE "A"], Torn(pair, t, e[2], pc["A"])>>) ELSE TRUE)
      \* a fill of a Cache location that the other call also touches: harmless iff the fill is atomic,
      \* which the model cannot know - reported as a candidate window for line-level replay
      /\ (IF e[1] = "W" /\ ~scr /\ e[3] # NONE /\ t = "A" /\ switches = 0 /\ e[2] \in Touched[pair]
